@@ -5,14 +5,14 @@ from C11.plan import PLAN as P11
 PLAN = copy.deepcopy(P11)
 PLAN["id"] = "C28"
 PLAN["spec"] = "../C11/spec.c"
-PLAN["native"] = {"src": "../C11/replay.cpp", "c_src": "../C11/native_slices.c", "libs": []}
+PLAN["native"] = dict(P11["native"], src="../C11/replay.cpp", c_src="../C11/native_slices.c")
 PLAN["not_covered"] = ["the first sentence of the statement: test-accept (testmempoolaccept / ATMP with test_accept) is faithful and free of side effects -- mempool and validation state histories, outside this technique's reach here",
-                       "monotonicity of script verification in its flags (C11's uncovered half), which the second sentence also needs: only the flag-set inclusion is proved"]
+                       "monotonicity of EvalScript / ExecuteWitnessScript / VerifyScript in their flags, which the second sentence also needs: only the flag-set inclusion and the witness-program dispatch (VerifyWitnessProgram) are proved monotone"]
 PLAN["manifest"] = {
     "category": "proof",
     "text": "partial (second sentence, flag-set half): the consensus script flags of any block under any deployment state (GetBlockScriptFlags, extracted each run) are a subset of the standard policy flags, MANDATORY is a subset of STANDARD, and every chainparams exception value is a subset of STANDARD -- "
-            "so a transaction checked under the policy flags was checked under at least every consensus flag of the next block (same obligations as C11).",
-    "note": "Not covered: test-accept faithfulness and side-effect freedom (first sentence); interpreter monotonicity in flags. Same engine and obligations as C11.",
-    "technique": "CBMC function contract on extracted GetBlockScriptFlags + contract-only lemma over constants extracted from policy.h / interpreter.h / chainparams.cpp",
+            "so a transaction checked under the policy flags was checked under at least every consensus flag of the next block and the witness-program dispatch VerifyWitnessProgram is proved monotone in its flags given a monotone ExecuteWitnessScript (same obligations as C11).",
+    "note": "Not covered: test-accept faithfulness and side-effect freedom (first sentence); EvalScript / VerifyScript monotonicity in flags (assumed for ExecuteWitnessScript in the dispatch lemma). Same engine and obligations as C11.",
+    "technique": "CBMC function contracts on extracted VerifyWitnessProgram and GetBlockScriptFlags + contract-only lemmas (flag monotonicity of the dispatch; subset facts over constants extracted from policy.h / interpreter.h / chainparams.cpp)",
 }
 PLAN["trusted_base"] = ["specs/C11/spec.c"]
